@@ -282,6 +282,11 @@ def expr_guards(node, stop=None):
                             break
                         if isinstance(prev, ast.If) and _always_exits(prev.body):
                             out.append((prev.test, False))
+                            # `if A: return .. elif B: return ..`: past the chain, every test whose branch always leaves was false
+                            link = prev
+                            while len(link.orelse) == 1 and isinstance(link.orelse[0], ast.If) and _always_exits(link.orelse[0].body):
+                                link = link.orelse[0]
+                                out.append((link.test, False))
                         elif isinstance(prev, ast.If) and prev.orelse and _always_exits(prev.orelse) and not _always_exits(prev.body):
                             out.append((prev.test, True))
                         elif isinstance(prev, ast.Assert):
